@@ -80,7 +80,7 @@ def on_ids(p, r, exc, acc):
 
 
 # ------------------------------------------------------------------ construction / rendering paths (concrete replay of solver-chosen cases)
-PATHS = ["string", "file", "module_directory", "reloaded", "render_unicode", "render_context", "get_def", "module_template", "mako_render", "moved_source", "stale_generation_module", "get_def_arguments"]
+PATHS = ["string", "file", "module_directory", "reloaded", "render_unicode", "render_context", "get_def", "module_template", "mako_render", "moved_source", "stale_generation_module", "get_def_arguments", "mako_render_output_encoding"]
 CORPUS = ["plain", "inherits", "namespaces", "nonascii", "latin1"]
 
 
